@@ -59,6 +59,7 @@ pub enum Ev {
     CloseCmd,
     CloseReports,
     ReplayMismatch,
+    CsvMismatch,
 }
 
 struct Slot {
@@ -234,6 +235,8 @@ pub const SPECS: &[&str] = &[
     "x:\n  type: real\n  init: 1.0\n  scale: 1.0\n",
     "x:\n  type: real\n  init: 0.5\n  scale: 0.1\n  min: -1.0\n  max: 1.0\ny:\n  type: int\n  init: 3\n  scale: 2.0\n  min: -10\n  max: 10\nb:\n  type: bool\n  init: false\n",
     "m:\n  type: anon map\n  initSize: 2\n  minSize: 1\n  maxSize: 4\n  valueType:\n    type: real\n    init: 0.0\n    scale: 1.0\nv:\n  type: variant\n  init: a\n  a:\n    type: const\n  b:\n    type: int\n    init: 0\n    scale: 1.0\ne:\n  type: enum\n  values: [p, q, r]\n  init: q\no:\n  type: optional\n  initPresent: true\n  valueType:\n    type: bool\n    init: true\narr:\n  type: array\n  size: 2\n  valueType:\n    type: real\n    init: 0.25\n    scale: 0.5\n    min: 0.0\n",
+    // a root that is not a sub: an optional, for which the guess `null` is valid and means "absent"
+    "type: optional\ninitPresent: true\nvalueType:\n  type: real\n  init: 1.0\n  scale: 1.0\n",
 ];
 
 pub struct Obs {
@@ -579,6 +582,29 @@ pub fn run_schedule_ex(s: &Sched, replay: Option<(&[Vec<Action>], bool)>) -> (Ob
                                 m.mutation_params.mutation_scale,
                             )
                         });
+                        // the CSV record of this item must read back as the item's fields, bit for bit
+                        {
+                            let row = it.to_csv_row();
+                            let cols: Vec<&str> = row.trim_end_matches('\n').split(';').collect();
+                            let num = |s: &str| s.parse::<f64>().ok().map(|x| x.to_bits());
+                            let ok = cols.len() == 10
+                                && cols[0].parse::<u64>().ok() == Some(it.individual_id as u64)
+                                && cols[8].parse::<u64>().ok() == Some(it.seed)
+                                && match it.obj_func_val {
+                                    Some(x) => num(cols[9]) == Some(x.to_bits()),
+                                    None => cols[9].is_empty(),
+                                }
+                                && serde_json::from_str::<serde_json::Value>(cols[7]).ok().as_ref() == Some(&it.input_val)
+                                && match &meta {
+                                    Some((_, a, b, c, d)) => {
+                                        num(cols[3]) == Some(a.to_bits()) && num(cols[4]) == Some(b.to_bits()) && num(cols[5]) == Some(c.to_bits()) && num(cols[6]) == Some(d.to_bits())
+                                    }
+                                    None => cols[2].is_empty() && cols[3].is_empty() && cols[4].is_empty() && cols[5].is_empty() && cols[6].is_empty(),
+                                };
+                            if !ok {
+                                g.log.push(Ev::CsvMismatch);
+                            }
+                        }
                         items.push(OItem {
                             id: it.individual_id as u64,
                             seed: it.seed,
@@ -731,7 +757,13 @@ pub fn gen_sched(master: u64, idx: u64, profile: &str) -> Sched {
     let close_cmd_at = if !twin && r.chance(1, 30) { Some(r.below(est.max(1) + 2)) } else { None };
     let close_rep_at = if !twin && r.chance(1, 30) { Some(r.below(est.max(1) + 2)) } else { None };
     let spec = r.below(SPECS.len());
-    let guess = if spec == 0 && r.chance(1, 3) { Some("{\"x\": -2.5}".to_string()) } else { None };
+    let guess = if spec == 0 && r.chance(1, 3) {
+        Some("{\"x\": -2.5}".to_string())
+    } else if spec == 3 && r.chance(1, 2) {
+        Some((*r.pick(&["null", "null", "2.5"])).to_string())
+    } else {
+        None
+    };
     Sched {
         idx,
         seed,
@@ -819,6 +851,7 @@ pub fn ev_to_coq(e: &Ev) -> String {
         Ev::CloseCmd => "ECloseCmd".into(),
         Ev::CloseReports => "ECloseReports".into(),
         Ev::ReplayMismatch => "EReplayMismatch".into(),
+        Ev::CsvMismatch => "ECsvMismatch".into(),
     }
 }
 
